@@ -99,7 +99,7 @@ Conc(e, m) ==
     [] e = "DetS1PClose" -> << [e |-> "ADetach", l |-> "L1", closed |-> FALSE], PDet(C1, H(5), TRUE, "amqp:resource-deleted"),
                                [e |-> "PFrame", perf |-> "attach", ch |-> C1, needs_prev |-> TRUE, f |-> [name |-> "L1", h |-> H(5), role |-> "r", snd |-> 2, rcv |-> 0]],
                                PDet(C1, H(5), TRUE, "") >>
-    [] e = "DropReatt1" -> << [e |-> "ADrop", h |-> "l:L1", nosettle |-> TRUE], [e |-> "AAttachS", l |-> "L7", s |-> "s1", cfg |-> [snd |-> 2, rcv |-> 0, idc |-> 0]],
+    [] e = "DropReatt1" -> << [e |-> "AAttachS", l |-> "L7", s |-> "s1", drop_first |-> "L1", cfg |-> [snd |-> 2, rcv |-> 0, idc |-> 0]],
                               PDet(C1, H(5), TRUE, ""), [e |-> "PFrame", perf |-> "attach", ch |-> C1, f |-> [name |-> "L7", h |-> H(11), role |-> "r", snd |-> 2, rcv |-> 0]] >>
     [] e = "CloseR2" -> << [e |-> "ADetach", l |-> "L2", closed |-> TRUE], PDet(C1, H(6), TRUE, "") >>
     [] e = "PDetS1err" -> << PDet(C1, H(5), TRUE, "x:gone"), Send("L1", m, FALSE) >>
